@@ -158,7 +158,11 @@ Step(e) ==
     [] e.ev \in {"CliReset", "CliInit"} ->
          /\ db' = [db EXCEPT ![e.fan] = [data |-> e.hasData, map |-> e.hasMap]]
          /\ discarded' = [discarded EXCEPT ![e.fan] = ~(e.hasData /\ e.hasMap)]
-         /\ Keep(<<cf, ph, pwm, mode, orig, reg, mtx, ctx, proc, sigs, cnt, ana, faults, starts, had>>)
+         \* (a `fan reset` while the daemon is running discards what this very start characterised: nothing of it is
+         \* owed to the database any more, see C15_StartStores)
+         /\ cnt' = IF proc = "run" /\ e.ev = "CliReset" /\ e.fan \in cf.fans
+                     THEN [cnt EXCEPT ![e.fan] = [sweeps |-> 0, meas |-> 0]] ELSE cnt
+         /\ Keep(<<cf, ph, pwm, mode, orig, reg, mtx, ctx, proc, sigs, ana, faults, starts, had>>)
     [] OTHER -> Keep(dvars)     \* RunStart, CycleBegin, RpmBegin, RpmEnd, ...
 
 MNext == /\ l <= N
